@@ -93,6 +93,25 @@ def run(ctx, F):
                 ctx.fail("F4-declaration-value", "handle_item Property arm pushes valid_css(evaluate(value))", f"the declaration value is `{sym.show(v)[:260]}`", where=hi.where(bi))
     if not seen_decl:
         ctx.anchor_lost("handle_item Property arm", "no push_property call whose value derives from Item::Property")
+
+    # ---------------------------------------------------------------- sibling constructors of the two entry points
+    # compile_scss uses FsContext::for_cwd, compile_scss_path FsContext::for_path: both must be nothing but
+    # `for_loader(<their FsLoader constructor>)` — anything else done to the context in one of them (an extra
+    # load path, a different format) makes the two entry points disagree on the same source.
+    PLUMBING = ("Try>::branch", "::from_residual", "Try>::from_output")
+    shapes = {}
+    for nm, inner in (("Context<input::fsloader::FsLoader>>::for_path", "<input::fsloader::FsLoader>::for_path"),
+                      ("Context<input::fsloader::FsLoader>>::for_cwd", "<input::fsloader::FsLoader>::for_cwd")):
+        cb = prog.one(nm)
+        callees = [mir.callee_name(tm) or "<indirect>" for bi, tm in cb.calls()]
+        extra = sorted({mir.short(c) for c in callees if not any(c.endswith(x) for x in PLUMBING) and c != inner and not c.endswith("Context<AnyLoader>>::for_loader") and not c.startswith("tracing") and "tracing::" not in c and "tracing_core::" not in c})
+        has = inner in callees and any(c.endswith("Context<AnyLoader>>::for_loader") for c in callees)
+        key = f"FsContext::{nm.rsplit('::', 1)[-1]} = for_loader(FsLoader::{nm.rsplit('::', 1)[-1]}(..))"
+        if has and not extra:
+            ctx.ok("F9-sibling-constructors", key, None)
+        else:
+            ctx.fail("F9-sibling-constructors", key, f"the context constructor behind {'compile_scss_path' if nm.endswith('for_path') else 'compile_scss'} does more than wrap its loader (extra calls: {extra}; expected only FsLoader::{nm.rsplit('::', 1)[-1]} and for_loader): "
+                     "the two entry points no longer resolve loads the same way", where=cb.where())
     # ---------------------------------------------------------------- for_path reads the file's bytes
     fp = prog.one("<input::fsloader::FsLoader>::for_path")
     reads = [(bi, tm) for bi, tm in fp.calls() if (mir.callee_name(tm) or "").endswith("SourceFile>::read")]
